@@ -7,7 +7,7 @@ import random
 import shutil
 
 from ..absstate import abstract, Layout
-from ..common import (DEFAULT_NS, DEFAULT_ALGOS, new_scratch, rmtree, split_seeds, ncpu, call, open_store,
+from ..common import (DEFAULT_NS, DEFAULT_ALGOS, new_scratch, rmtree, split_seeds, ncpu, call,
                       clear_atexit_tmp_handlers, read_all_and_close)
 from ..gen import chunk, make_content, object_menu, op_shape
 from ..model import mixed_case, wrong_checksum
@@ -26,7 +26,8 @@ RULE = ("start states = histories over a 20-operation menu (quick: 150 sampled o
         "tag_object(pid, cid) on the other. Oracle: with correct/absent validation data both succeed (or both are "
         "rejected already-exists), report equal cid / size / default digests and leave equal directory "
         "abstractions; with incorrect data both raise the same mismatch class, the pid is unbound on both sides and "
-        "every previously referenced object is still retrievable. distinct_nontrivial = distinct (start-state "
+        "every previously referenced object is still retrievable. Each shard runs in its own store configuration "
+        "(depth 1/3/4, width 1-3, one of the five algorithms). distinct_nontrivial = distinct (start-state "
         "abstraction, subject, content, validation, kind).")
 ASSUMPTIONS = ["with incorrect validation data and previously unreferenced content the two procedures may differ in "
                "whether the unreferenced object survives; the statement does not require equality there"]
@@ -85,10 +86,17 @@ def run_shard(histories, tier, sub_seed):
     scratch = new_scratch("c19")
     contents = {k: make_content(v["cseed"], v["size"]) for k, v in SPEC.items()}
     menu = object_menu(["p", "q"], ["A", "B"], validations=False)
-    lay = Layout(3, 2, "SHA-256", DEFAULT_NS)
+    # configuration variety: every shard draws its own shard shape and store algorithm
+    from ..common import STORE_ALGOS
+    cfg = dict(depth=rng.choice([1, 3, 4]), width=rng.choice([1, 2, 3]), algo=rng.choice(STORE_ALGOS))
+    lay = Layout(cfg["depth"], cfg["width"], cfg["algo"], DEFAULT_NS)
     known = ["p", "q", "s"]
+
+    def open_store(path):
+        from ..common import open_store as _open
+        return _open(path, **cfg)
     try:
-        pool = WorldPool(os.path.join(scratch, "w"), contents, {})
+        pool = WorldPool(os.path.join(scratch, "w"), contents, {}, **cfg)
         for hidx, h in enumerate(histories):
             w = pool.fresh(pids=known)
             ok = True
@@ -166,7 +174,7 @@ def run_shard(histories, tier, sub_seed):
                             res.violation(dict(shape, symptom="pid-bound-after-invalid", side=side), wit)
                         for p, c in referenced.items():
                             r = call(st.retrieve_object, p)
-                            if not r.ok or hashlib.sha256(read_all_and_close(r.value)).hexdigest() != c:
+                            if not r.ok or lay.cid_of(read_all_and_close(r.value)) != c:
                                 res.violation(dict(shape, symptom="referenced-object-disturbed", side=side), wit)
                                 break
                 if res.evaluations % 500 == 1:
